@@ -17,6 +17,7 @@ import (
 	"path/filepath"
 	"reflect"
 	"sync"
+	"syscall"
 	"time"
 	"unsafe"
 
@@ -131,6 +132,10 @@ type live struct {
 	dead    bool
 
 	syncEvents int // autofile.synced events seen for this directory
+
+	headIno  uint64 // inode and on-disk size of the head at the last look, and the
+	headDisk int64  // number of files the model had seen then (a rotation changes it)
+	headGen  int
 }
 
 const tick = time.Millisecond
@@ -158,7 +163,7 @@ func openLive(m *model, dir string, rep *reporter) (*live, error) {
 	wal, err := consensus.NewWAL(hp,
 		autofile.GroupHeadSizeLimit(m.HeadLimit),
 		autofile.GroupTotalSizeLimit(m.TotalLimit),
-		autofile.GroupCheckDuration(tick))
+		autofile.GroupCheckDuration(m.checkEvery()))
 	if err != nil {
 		return nil, harnessErr{"NewWAL: " + err.Error()}
 	}
@@ -293,6 +298,9 @@ func scanDirOnce(dir string) (dirInfo, bool) {
 // directory state, so waiting for the fixpoint makes the history independent
 // of when the ticks happen.
 func (lv *live) settle() error {
+	if lv.m.checkEvery() >= time.Minute {
+		return nil // no ticker: nothing rotates or prunes by itself
+	}
 	deadline := time.Now().Add(60 * time.Second)
 	for {
 		di := scanDir(lv.dir)
@@ -424,6 +432,11 @@ func (lv *live) applyEvents(r *rec, l0 int64) error {
 			m.logf("  rotate -> %s (%d bytes, synced %d)", e.name, e.size, h.Synced)
 			lv.rep.c.Count("rotations", 1)
 		case evRemoved:
+			if e.name == headName {
+				lv.rep.violation(m, "size-limit-removed-head-file", -1,
+					fmt.Sprintf("the total-size limit removed the head file itself (%d bytes on disk, %d records) - it may discard only whole oldest files", m.head().Size, len(m.head().Recs)), nil)
+				return stopLineage{"the head file was removed"}
+			}
 			if m.file(e.name) == nil && m.Gone[e.name] {
 				// an empty file re-created by a reader at a pruned index (see filesDisagree)
 				lv.rep.c.Count("empty_recreated_files_removed", 1)
@@ -470,6 +483,19 @@ func (lv *live) measure(r *rec, l0 int64, acked bool) error {
 		if (d1 == d2 && b1 == b2) || try > 1000 {
 			d, l1 = d2, d2+b2
 			break
+		}
+	}
+	// the head must stay the same file: same inode, never shorter, unless this
+	// operation rotated it away
+	if ino, ok := inodeOf(headPath(lv.dir)); true {
+		if lv.headIno != 0 && lv.headGen == len(m.Files)+len(m.Gone) && (!ok || ino != lv.headIno || d < lv.headDisk) {
+			lv.rep.violation(m, "size-limit-removed-head-file", -1,
+				fmt.Sprintf("the head file was replaced or truncated without a rotation: inode %d with %d bytes before, now present=%v inode %d with %d bytes", lv.headIno, lv.headDisk, ok, ino, d), nil)
+			return stopLineage{"the head file was replaced"}
+		}
+		lv.headIno, lv.headDisk, lv.headGen = 0, 0, len(m.Files)+len(m.Gone)
+		if ok {
+			lv.headIno, lv.headDisk = ino, d
 		}
 	}
 	if r != nil && r.Len < 0 {
@@ -529,6 +555,7 @@ const (
 	opEndWrite
 	opPartWrite   // msgInfo{BlockPartMessage} through Write
 	opPartSync    // ... through WriteSync
+	opRotate      // Group().RotateFile() called by the harness (only with the group's ticker off)
 	opEndZeroSync // WriteSync(EndHeightMessage{0}): the marker older versions wrote at the top of every head they found empty
 )
 
@@ -651,7 +678,18 @@ func (lv *live) do(op opSpec) error {
 	var err error
 	acked := false
 	verb := ""
+	if m.sink != nil { // write-ahead: the parent shows these lines if the process dies in this operation
+		d := "FlushAndSync / RotateFile"
+		if r != nil {
+			d = r.desc()
+		}
+		m.sink.WriteString(fmt.Sprintf("about to run op kind %d: %s\n", op.Kind, d))
+	}
 	switch op.Kind {
+	case opRotate:
+		lv.wal.Group().RotateFile()
+		verb = "Group().RotateFile()"
+		lv.rep.c.Count("explicit_RotateFile_calls", 1)
 	case opWrite, opEndWrite, opPartWrite:
 		err = lv.wal.Write(msg)
 		verb = "Write"
@@ -975,4 +1013,22 @@ func makePartMsg(height int64, round int32, bytes []byte) (consensus.WALMessage,
 		return nil, err
 	}
 	return t.Msg, nil
+}
+
+func (m *model) checkEvery() time.Duration {
+	if m.CheckEvery > 0 {
+		return m.CheckEvery
+	}
+	return tick
+}
+
+func inodeOf(p string) (uint64, bool) {
+	st, err := os.Stat(p)
+	if err != nil {
+		return 0, false
+	}
+	if s, ok := st.Sys().(*syscall.Stat_t); ok {
+		return s.Ino, true
+	}
+	return 0, false
 }
